@@ -153,8 +153,7 @@ impl<F: Float + SampleUniform + std::fmt::Debug, D: Hash + Copy, H: Hasher + Def
         //
         if self.nb_empty > 0 {
             // now we run densification if necessary
-            let res = self.densify();
-            assert!(res.is_ok());
+            self.densify()?;
         }
         //
         Ok(())
@@ -191,7 +190,7 @@ impl<F: Float + SampleUniform + std::fmt::Debug, D: Hash + Copy, H: Hasher + Def
             return;
         }
         let res = self.densify();
-        assert!(res.is_ok());
+        assert!(res.is_ok(), "end_sketch failed : {:?}", res);
     }
 
     // This method must be called before get_hsketch, get_hsketch_u32 or get_hsketch_u64
@@ -202,6 +201,10 @@ impl<F: Float + SampleUniform + std::fmt::Debug, D: Hash + Copy, H: Hasher + Def
         let m: usize = self.hsketch.len();
         let mut nbpass = 1u64;
         let inrange = Uniform::<usize>::new(0, m).unwrap();
+        if self.nb_empty as usize >= m {
+            // nothing was sketched : no populated bin to copy from, the search below would never end
+            return Err(anyhow::anyhow!("densification impossible : no data sketched"));
+        }
         for k in 0..m {
             if !self.init[k] {
                 // change hash function for each, item. rng has no loop at expected horizon and provides independance so we get universal hash function
@@ -373,8 +376,7 @@ impl<F: Float + SampleUniform + std::fmt::Debug, D: Hash + Copy, H: Hasher + Def
         //
         if self.nb_empty > 0 {
             // now we run densification if necessary
-            let res = self.densify();
-            assert!(res.is_ok());
+            self.densify()?;
         }
         log::debug!(
             "fastdensminhash::sketch_slice sketch size : {:?},  nb empy slots : {:?}",
@@ -393,6 +395,10 @@ impl<F: Float + SampleUniform + std::fmt::Debug, D: Hash + Copy, H: Hasher + Def
         let m: usize = self.hsketch.len();
         let unif_m = Uniform::<usize>::new(0, m).unwrap();
         let mut pass: u64 = 1;
+        if self.nb_empty as usize >= m {
+            // nothing was sketched : no populated bin to copy from, the loop below would never end
+            return Err(anyhow::anyhow!("densification impossible : no data sketched"));
+        }
         while self.nb_empty > 0 {
             #[cfg(feature = "verif_hooks")]
             crate::verif::densify_tick((m as i64 - self.nb_empty) as usize, m);
@@ -429,7 +435,7 @@ impl<F: Float + SampleUniform + std::fmt::Debug, D: Hash + Copy, H: Hasher + Def
             return;
         }
         let res = self.densify();
-        assert!(res.is_ok());
+        assert!(res.is_ok(), "end_sketch failed : {:?}", res);
     }
 } // end of impl RevOptDensMinHash
 
